@@ -64,6 +64,8 @@ def gen_structure(seed, tier, i):
         return structures.gen_multi_group(s, 2, 3)
     if mode < 0.27:
         return structures.gen_many(s, 10, 16)
+    if mode < 0.35:
+        return structures.gen_broom(s)
     return structures.gen_structure(s, max_stems=8, max_len=4, knotted_bias=0.85, template_p=0.3)
 
 
